@@ -268,6 +268,49 @@ pub fn case_strategy(max_steps: usize) -> impl Strategy<Value = Case> {
     })
 }
 
+
+/// Histories built around an update that is interrupted half-way: a synchronised client, 2-4 new
+/// deltas on the server, a fetch in which a later delta fails and the snapshot fall-back fails as
+/// well, then 1-2 quiet fetches (the server unchanged, no faults — with ETags the server honestly
+/// answers whatever the client's recorded validators imply), optionally one more server change and
+/// a final fetch.
+pub fn interrupted_strategy() -> impl Strategy<Value = Case> {
+    let dfault = (0u8..6, 1u8..4).prop_map(|(k, i)| match k {
+        0 => Fault::D404(i),
+        1 => Fault::DHash(i),
+        2 => Fault::DMalformed(i),
+        3 => Fault::D500(i),
+        4 => Fault::DDrop(i),
+        _ => Fault::DSerial(i),
+    });
+    let sfault = prop::sample::select(vec![Fault::S404, Fault::SHash, Fault::SMalformed, Fault::S500, Fault::SDrop]);
+    let simple_op = prop_oneof![(0u8..N_URIS, 0u8..N_CONTENTS).prop_map(|(u, c)| Op::Put { u, c }), (0u8..N_URIS).prop_map(|u| Op::Del { u })];
+    (
+        any::<u64>(),
+        prop::bool::weighted(0.8),
+        prop::collection::vec(simple_op.clone(), 1..=3),
+        prop::collection::vec(simple_op.clone(), 2..=4),
+        dfault,
+        sfault,
+        1usize..=2,
+        prop::option::of(simple_op),
+    )
+        .prop_map(|(seed, etag, init, deltas, df, sf, quiet, tail)| {
+            let mut steps: Vec<Step> = init.into_iter().map(Step::Server).collect();
+            steps.push(Step::Fetch(vec![]));
+            steps.extend(deltas.into_iter().map(Step::Server));
+            steps.push(Step::Fetch(vec![df, sf]));
+            for _ in 0..quiet {
+                steps.push(Step::Fetch(vec![]));
+            }
+            if let Some(op) = tail {
+                steps.push(Step::Server(op));
+                steps.push(Step::Fetch(vec![]));
+            }
+            Case { seed, srv_deltas: 7, max_delta_count: 6, max_list_len: 7, etag, steps }
+        })
+}
+
 #[derive(Clone)]
 struct Version {
     session: Uuid,
@@ -739,7 +782,14 @@ fn prop_with(case: &Case, info: &mut CaseInfo, exclude_known: bool) -> Verdict {
                         let unchanged = before.as_ref().ok().and_then(|b| b.as_ref()).map(|b| *b == after).unwrap_or(false);
                         let gap = local.as_ref().map(|l| l.session == n_sess && gap_in_needed(&list, l.serial + 1, n_serial)).unwrap_or(false);
                         let _ = unchanged;
-                        let key = if dirty && !snap_req {
+                        // An honest 304 means the client presented the validator of the notification the server
+                        // serves now, i.e. it claims to hold that version. With a copy left by a failed update this
+                        // cannot happen unless validators of an unfinished update were recorded (the known shape
+                        // needs a forced 304 or a notification that is retried and fails again).
+                        let forced304 = applied.iter().any(|a| *a == "N304" || *a == "NStale");
+                        let key = if dirty && got304 && !forced304 {
+                            "C25/validators-of-unfinished-update-recorded".to_string()
+                        } else if dirty && !snap_req {
                             KEY_REUSE.to_string()
                         } else if gap && !snap_req {
                             KEY_GAP.to_string()
@@ -893,7 +943,7 @@ fn directed_reuse() -> Case {
 }
 
 pub fn run(ctx: &Ctx, rep: &mut Report, replay: Option<&serde_json::Value>) {
-    rep.rule("stateful: RRDP publisher model over 6 URIs x 3 contents driven by generated ops (put/delete/multi-change delta, new session, serial jump, delta list trimmed, newest delta rewritten in place); 2-8 client updates per case through routinator's collector (Collector::start -> Run::repository) against the in-harness HTTPS server, each with 0-2 faults out of 33 kinds (notification 404/500/drop/malformed/304/stale/other origin; delta list truncated at either end/gapped/duplicated/hash-mutated/over-long; delta file wrong hash/altered content/malformed/foreign session/foreign serial/404/500/drop mid-body/object repeated/publish-of-existing/withdraw-of-missing; snapshot wrong hash/altered content/malformed/foreign session/foreign serial/404/500/drop/duplicate object), small rrdp-max-delta-count / rrdp-max-delta-list-len, local cache carried over; oracle: repository handed out => archive == server object set at the notified session+serial (304: the local state's) byte for byte, recorded state names it, load_object agrees; non-trivial = at least one successful delta-path update and at least one applied fault in the history; distinct by serialised case");
+    rep.rule("stateful: RRDP publisher model over 6 URIs x 3 contents driven by generated ops (put/delete/multi-change delta, new session, serial jump, delta list trimmed, newest delta rewritten in place); 2-8 client updates per case through routinator's collector (Collector::start -> Run::repository) against the in-harness HTTPS server, each with 0-2 faults out of 33 kinds (notification 404/500/drop/malformed/304/stale/other origin; delta list truncated at either end/gapped/duplicated/hash-mutated/over-long; delta file wrong hash/altered content/malformed/foreign session/foreign serial/404/500/drop mid-body/object repeated/publish-of-existing/withdraw-of-missing; snapshot wrong hash/altered content/malformed/foreign session/foreign serial/404/500/drop/duplicate object), small rrdp-max-delta-count / rrdp-max-delta-list-len, local cache carried over; plus (interrupted) histories built around a multi-delta update in which a later delta and the snapshot fall-back both fail, followed by quiet fetches against the unchanged, honestly conditional server; oracle: repository handed out => archive == server object set at the notified session+serial (304: the local state's) byte for byte, recorded state names it, load_object agrees; non-trivial = at least one successful delta-path update and at least one applied fault in the history; distinct by serialised case");
     rep.assume("the publisher model (httpsrv::RrdpServer) renders RFC 8182 files as rpki::rrdp parses them; 'not updated' is observed as Run::repository == Ok(None) with rsync disabled; a semantic fault inside a delta/snapshot file is listed with the faulty file's own hash so that only routinator's semantic checks can notice it");
     ctx.shrink_iters.store(300, std::sync::atomic::Ordering::Relaxed);
     if let Some(v) = replay {
@@ -907,6 +957,9 @@ pub fn run(ctx: &Ctx, rep: &mut Report, replay: Option<&serde_json::Value>) {
     run_case(ctx, rep, "directed-residue", &directed_residue(), prop_all);
     run_case(ctx, rep, "directed-304", &directed_304(), prop_all);
     run_prop_par(ctx, rep, "histories", ctx.tier.pick(600, 8000), 8, || case_strategy(ctx.tier.pick(22, 30)), prop);
+    if !rep.violated() {
+        run_prop_par(ctx, rep, "interrupted", ctx.tier.pick(240, 3000), 8, interrupted_strategy, prop);
+    }
     let g = EXCLUDED_GAP.load(Ordering::Relaxed);
     if g > 0 {
         *rep.excluded_known.entry(KEY_GAP.into()).or_default() += g;
